@@ -19,12 +19,27 @@ if bad:
     sys.exit(2)
 for pid in pids:
     os.makedirs(os.path.join(C.BUILD, "ex", pid), exist_ok=True)
-ok, log = C.coq_make(["all"], timeout=7200)
+ok, log = C.coq_make(["-k", "all"], timeout=7200)
 print(log[-3000:])
-if not ok:
-    print("SETUP: coq build failed")
+ready = [pid for pid in pids if getattr(importlib.import_module("props.%s" % pid), "READY", False)]
+failed = []
+for pid in ready:
+    mod = importlib.import_module("props.%s" % pid)
+    rel = getattr(mod, "THEOREM_FILE", "Properties/%s.v" % pid)
+    if not os.path.exists(os.path.join(C.COQ, rel + "o")):
+        failed.append(pid)
+if failed:
+    print("SETUP: coq build failed for claimed properties: %s" % failed)
     sys.exit(1)
+if not ok:
+    print("SETUP: note: some files of properties that are not claimed yet did not build")
 for pid in pids:
-    exe = C.build_driver(pid)
-    print("driver", pid, exe)
+    try:
+        exe = C.build_driver(getattr(importlib.import_module("props.%s" % pid), "DRIVER_PID", pid))
+        print("driver", pid, exe)
+    except Exception as e:
+        if pid in ready:
+            print("SETUP: driver build failed for %s: %s" % (pid, e))
+            sys.exit(1)
+        print("driver", pid, "not built:", str(e)[:200])
 print("SETUP OK")
